@@ -252,7 +252,7 @@ var slowSite = map[string]string{"google": "redeem", "okta": "callback", "cognit
 func TestProp(t *testing.T) {
 	env := vh.GetEnv()
 	rep := vh.NewReport("C10", "fault_enumeration")
-	rep.Rule("per provider (google, okta, cognito) the structural answer space is ENUMERATED: token answers = 32 status codes x 3 bodies, every truncation point of the valid body, 25 body shapes, 7 access_token variants, 12 non-essential field variants, connection faults; userinfo answers (okta, cognito) likewise + e-mail(6) x email_verified(7); google id_tokens = segments(1..5) x base64 class(5) x email_verified(7) x e-mail(6) + segments x 9 payload shapes + 14 raw id_token values; then seeded random byte-level mutations of valid answers. Every case is run at two sites: provider.Redeem directly and the real authenticator /start -> /callback (e-mails, codes and tokens unique per case and site). distinct = provider|site|class|dimension values (truncation index, status, ...) or mutation target+operator sequence, counted only for cases that produced an outcome")
+	rep.Rule("per provider (google, okta, cognito) the structural answer space is ENUMERATED: token answers = 32 status codes x 3 bodies, every truncation point of the valid body, 25 body shapes, 7 access_token variants, 12 non-essential field variants, connection faults; userinfo answers (okta, cognito) likewise + e-mail(6) x email_verified(7); google id_tokens = segments(1..5) x base64 class(6) x email_verified(7) x e-mail(6) + segments x 9 payload shapes + 14 raw id_token values; then seeded random byte-level mutations of valid answers. Every case is run at two sites: provider.Redeem directly and the real authenticator /start -> /callback (e-mails, codes and tokens unique per case and site). distinct = provider|site|class|dimension values (truncation index, status, ...) or mutation target+operator sequence, counted only for cases that produced an outcome")
 	rep.Assume("the scripted identity providers (the harness's own http server; for okta /callback the sut's TLS fake IdP) answer exactly as scripted; ground truth is the label the generator attached by construction, cross-checked by an independent lenient reading of the served bytes (disagreement => inconclusive)")
 	rep.Assume("verified means the JSON boolean true; 2xx statuses other than 200, byte-order marks, key-case variants, duplicate keys, padded base64url, id_tokens with 2/4/5 segments whose second segment is a valid verified payload, google answers without access_token and mistyped non-essential fields are don't-care zones (a session there must still carry the e-mail in the answer)")
 
